@@ -19,6 +19,8 @@ func init() {
 }
 
 func checkC09(c *Ctx, r *Report) {
+	checkSharedStores(c, r, "oned,gozxing", 10) // results and their metadata are not shared between reads (also C18)
+
 	checkResultSites(c, r)
 	// the integrity mechanisms the classification refers to (same obligations as under C05 / C10 / C11)
 	checkRSFullParity(c, r)
@@ -314,9 +316,9 @@ func checkDerivedSite(p *packages.Package, fd *ast.FuncDecl, call *ast.CallExpr)
 	}
 	// the guard
 	gi, _ := guardsOf(fd.Body, enclosingStmt(fd.Body, call))
-	isZeroTest := func(e ast.Expr) bool {
+	zeroCmp := func(e ast.Expr, op token.Token) bool {
 		be, ok := ast.Unparen(e).(*ast.BinaryExpr)
-		if !ok || be.Op != token.EQL {
+		if !ok || be.Op != op {
 			return false
 		}
 		ix, ok := ast.Unparen(be.X).(*ast.IndexExpr)
@@ -333,7 +335,20 @@ func checkDerivedSite(p *packages.Package, fd *ast.FuncDecl, call *ast.CallExpr)
 		v, exact := constant.Int64Val(constant.ToInt(tv.Value))
 		return exact && v == '0'
 	}
+	isZeroTest := func(e ast.Expr) bool { return zeroCmp(e, token.EQL) }
 	var holds func(e ast.Expr) bool
+	// fails(e): e being false implies the first character is '0' (the guard-clause spelling of the test)
+	var fails func(e ast.Expr) bool
+	fails = func(e ast.Expr) bool {
+		e = ast.Unparen(e)
+		if be, ok := e.(*ast.BinaryExpr); ok && be.Op == token.LOR {
+			return fails(be.X) || fails(be.Y)
+		}
+		if u, ok := e.(*ast.UnaryExpr); ok && u.Op == token.NOT {
+			return holds(u.X)
+		}
+		return zeroCmp(e, token.NEQ)
+	}
 	holds = func(e ast.Expr) bool {
 		e = ast.Unparen(e)
 		if be, ok := e.(*ast.BinaryExpr); ok && be.Op == token.LAND {
@@ -358,6 +373,11 @@ func checkDerivedSite(p *packages.Package, fd *ast.FuncDecl, call *ast.CallExpr)
 	guarded := false
 	for _, e := range gi.Enclosing {
 		if ifs, isI := e.Node.(*ast.IfStmt); isI && e.Branch && holds(ifs.Cond) {
+			guarded = true
+		}
+	}
+	for _, g := range gi.EarlyExits {
+		if fails(g.Cond) {
 			guarded = true
 		}
 	}
